@@ -106,6 +106,39 @@ func fixInvariants(x interface{}) {
 	}
 }
 
+// extraObjects: shapes of invariant-constrained fields that the code itself produces and the per-field
+// variation skips. Global: before the first shard balancing the stored ShardsNum is 0 while the accessors
+// report shard 1, so AddEmptyBlockByShard fills key 1 of a state whose ShardsNum is 0; the shard count can
+// also shrink below a key that is still present until the epoch ends.
+type extraObj struct {
+	x    interface{}
+	what string
+}
+
+func extraObjects(name string, mk func() interface{}) []extraObj {
+	if name != "state.Global" {
+		return nil
+	}
+	var out []extraObj
+	for _, sh := range []struct {
+		n    uint32
+		keys []common.ShardId
+	}{{0, []common.ShardId{1}}, {1, []common.ShardId{1, 2}}, {2, []common.ShardId{2, 3}}, {0, []common.ShardId{0}}} {
+		g := base(mk).(*state.Global)
+		g.ShardsNum = sh.n
+		g.ShardSizes = map[common.ShardId]uint32{}
+		for i := uint32(1); i <= sh.n; i++ {
+			g.ShardSizes[common.ShardId(i)] = 10 + i
+		}
+		g.EmptyBlocksByShards = map[common.ShardId][]common.Address{}
+		for _, k := range sh.keys {
+			g.EmptyBlocksByShards[k] = []common.Address{{byte(k), 7}}
+		}
+		out = append(out, extraObj{g, fmt.Sprintf("ShardsNum=%d with EmptyBlocksByShards keys %v", sh.n, sh.keys)})
+	}
+	return out
+}
+
 // transient fields by design (type.field): caches and process-local context, never encoded
 var transient = map[string]string{
 	"Transaction.hash":    "atomic.Value hash cache",
@@ -533,6 +566,11 @@ func checkType(c *ctxT, name string, mk func() interface{}, pairs bool) bool {
 	x := base(mk)
 	if !roundTrip(c, name, mk, x, "base object, every field populated") {
 		return false
+	}
+	for _, e := range extraObjects(name, mk) {
+		if !roundTrip(c, name, mk, e.x, e.what) {
+			return false
+		}
 	}
 	b0, _ := x.(codec).ToBytes()
 	var ls []leaf
